@@ -102,7 +102,8 @@ def main(tier: str, replay_file: str | None = None):
         with open(replay_file) as fh:
             rec = json.load(fh)
         print(rec["what"])
-        res = tlc.must(tlc.run("FileAttrs", CFG["quick"], workers=1, constants={"EMIT": "FALSE"}, timeout=900))
+        # the stored case carries the spec's Impl/Ref values; TLC only re-confirms that the model still exhibits its defects
+        res = tlc.must(tlc.run("FileAttrs", "FileAttrs_defect.cfg", workers=1, timeout=900), allow_violations=True)
         run.add_tlc(res)
         with multiprocessing.get_context("fork").Pool(1) as pool:
             replay(run, [rec["case"]["case"]], 1, pool)
